@@ -111,7 +111,7 @@ class Registry:
         c = Contract(*a, **kw)
         self.by_key[c.key] = c
         self.by_name[c.name] = c
-        self.uses[c.key] = list(use_lemmas)
+        self.uses[c.key] = use_lemmas if isinstance(use_lemmas, dict) else list(use_lemmas)
         return c
 
     def spec(self, src, types, ret, opaque=False):
